@@ -93,11 +93,16 @@ def admissible_sets(entries, theta, inside):
     vals = [Fraction(v) for v, _ in entries]
     T = sum(vals)
     thr = Fraction(theta)**2 * T
-    delta = Fraction(n + 4, 2**52)
     order = sorted(range(n), key=lambda k: -vals[k])
     S = [Fraction(0)]
     for k in order:
         S.append(S[-1] + vals[k])
+    # The band absorbs the rounding of a floating-point implementation.  When every quantity involved is exactly
+    # representable (small integers, powers of two, theta = 0.5, ...), every floating-point evaluation is exact
+    # and the criterion is decided without a band.
+    exact = Fraction(theta)**2 == Fraction(theta * theta) and Fraction(float(thr)) == thr and \
+        all(Fraction(float(x)) == x for x in S)
+    delta = Fraction(0) if exact else Fraction(n + 4, 2**52)
     ks = [k for k in range(1, n + 1) if S[k] >= thr * (1 - delta) and S[k - 1] < thr * (1 + delta)]
     # the loop of any implementation stops at the first k reaching the threshold as it evaluates it
     out = []
